@@ -149,8 +149,17 @@ func parseContractText(text, path, pkgPath string) ([]*FuncContract, error) {
 	var out []*FuncContract
 	var cur *FuncContract
 	var last *Clause
-	for n, raw := range strings.Split(text, "\n") {
+	skipTmpl := 0
+	adj := 0 // `//@#line N`: the next line counts as line N (text expanded by foreach templates keeps its line numbers)
+	for n0, raw := range strings.Split(text, "\n") {
 		line := strings.TrimSpace(raw)
+		if strings.HasPrefix(line, "//@#line ") {
+			var want int
+			fmt.Sscanf(line[len("//@#line "):], "%d", &want)
+			adj = want - (n0 + 2)
+			continue
+		}
+		n := n0 + adj
 		if !strings.HasPrefix(line, "//@") {
 			last = nil
 			continue
@@ -164,12 +173,30 @@ func parseContractText(text, path, pkgPath string) ([]*FuncContract, error) {
 		if body == "" {
 			continue
 		}
+		// an unexpanded field template (foreach ... and the clause that follows it) is skipped: the text is parsed
+		// again once fields.go has expanded it
+		if skipTmpl == 1 && !cont {
+			skipTmpl = 2
+			last = nil
+			continue
+		}
+		if skipTmpl == 2 && cont {
+			continue
+		}
+		if skipTmpl == 2 {
+			skipTmpl = 0
+		}
 		if cont && last != nil {
 			last.Expr += " " + body
 			continue
 		}
 		word, rest, _ := strings.Cut(body, " ")
 		rest = strings.TrimSpace(rest)
+		if word == "foreach" {
+			skipTmpl = 1
+			last = nil
+			continue
+		}
 		switch {
 		case word == "func":
 			cur = &FuncContract{Func: rest, PkgPath: pkgPath, File: path, Arith: "none", invs: map[int][]string{}, regions: map[string]string{}, Line: n + 1, NoPanic: true}
@@ -1168,7 +1195,10 @@ func generateOverlay(pkg *packages.Package, contracts []*FuncContract, regions [
 		sb.WriteString("func vqExists(lo int, hi int, f func(int) bool) bool {\n\tfor i := lo; i < hi; i++ {\n\t\tif f(i) {\n\t\t\treturn true\n\t\t}\n\t}\n\treturn false\n}\n\n")
 	}
 	if needSame {
-		sb.WriteString("func vqSame[T any](a, b T) bool {\n\treturn fmt.Sprintf(\"%p\", any(a)) == fmt.Sprintf(\"%p\", any(b))\n}\n\n")
+		// executable meaning (replays, bounded search): identical, or equal contents -- old(...) values are deep copies
+		// in a replay, so identity alone would report differences that are not there; the weaker test can only make a
+		// replay confirm less
+		sb.WriteString("func vqSame[T any](a, b T) bool {\n\treturn fmt.Sprintf(\"%p\", any(a)) == fmt.Sprintf(\"%p\", any(b)) || fmt.Sprint(any(a)) == fmt.Sprint(any(b))\n}\n\n")
 	}
 	sb.WriteString(body.String())
 	return sb.String(), nil
